@@ -84,6 +84,19 @@ func verifHarnessC08() {
 	if verifParam("preput") == 1 {
 		verifAssert(db.Put(kp.keys[0], []byte{0xee}) == nil, "C08.preput-err")
 	}
+	// preput 2: EVERY pool key is pre-written with a value long enough that each record sits in its own
+	// (scaled) block, so concurrent Gets of different keys read different blocks of one file
+	var prevals [][]byte
+	if verifParam("preput") == 2 {
+		for i := range kp.keys {
+			v := make([]byte, 14)
+			for j := range v {
+				v[j] = byte(0xe0 + i)
+			}
+			verifAssert(db.Put(kp.keys[i], v) == nil, "C08.preput-err")
+			prevals = append(prevals, v)
+		}
+	}
 	// plans are drawn before the threads start
 	plans := make([][]*vHistOp, T)
 	for t := 0; t < T; t++ {
@@ -92,24 +105,29 @@ func verifHarnessC08() {
 			if verifParam("onlyput") == 1 {
 				nk = 1
 			}
-			o := &vHistOp{kind: verifChoice("kind", nk), ki: verifChoice("ki", len(kp.keys))}
+			o := &vHistOp{kind: 2}
+			if verifParam("onlyget") != 1 {
+				o.kind = verifChoice("kind", nk)
+			}
+			o.ki = verifChoice("ki", len(kp.keys))
 			if o.kind == 0 {
 				o.val = verifBytes("val", 1)
 			}
 			plans[t] = append(plans[t], o)
 		}
 	}
-	clk := 0
 	var hist []*vHistOp
 	if verifParam("preput") == 1 {
 		hist = append(hist, &vHistOp{kind: 0, ki: 0, val: []byte{0xee}, call: -2, ret: -1})
+	}
+	for i, v := range prevals {
+		hist = append(hist, &vHistOp{kind: 0, ki: i, val: v, call: -2*len(prevals) + 2*i - 2, ret: -2*len(prevals) + 2*i - 1})
 	}
 	for t := 0; t < T; t++ {
 		plan := plans[t]
 		go func() {
 			for _, o := range plan {
-				clk++
-				o.call = clk
+				o.call = verifTick()
 				switch o.kind {
 				case 0:
 					o.err = db.Put(kp.keys[o.ki], o.val)
@@ -122,8 +140,7 @@ func verifHarnessC08() {
 						o.err = err
 					}
 				}
-				clk++
-				o.ret = clk
+				o.ret = verifTick()
 			}
 		}()
 	}
